@@ -14,7 +14,7 @@ import (
 )
 
 func init() {
-	Register("C13", "Decides, on finite tables extracted from the source: (grammar) the number recogniser json/scanner.go is a DFA over <state function, finished flag>; its driver contract holds and the DFA is language-equivalent to the RFC 8259 number grammar (product construction, every mismatch reported with a shortest witness); (pred) Equal/GreaterThan/... are the right truth tables over Cmp in {-1,0,1}, Cmp's sign logic is correct including equal magnitudes, `not` is total on {-1,0,1}, and negative zero is normalised; (ovf) integer accumulation is overflow-guarded and exponent-driven allocation is bounded. (cmp) cmpAbs/cmpInt/cmpFra/int()/fra() tabulated by operand role over every ordering of the part lengths, every index and every digit pair. Does NOT decide exponent shifting, String() or LengthOfFractionalPart().",
+	Register("C13", "Decides, on finite tables extracted from the source: (grammar) the number recogniser json/scanner.go is a DFA over <state function, finished flag>; its driver contract holds and the DFA is language-equivalent to the RFC 8259 number grammar (product construction, every mismatch reported with a shortest witness); (pred) Equal/GreaterThan/... are the right truth tables over Cmp in {-1,0,1}, Cmp's sign logic is correct including equal magnitudes, `not` is total on {-1,0,1}, and negative zero is normalised; (ovf) integer accumulation is overflow-guarded and exponent-driven allocation is bounded. (cmp) cmpAbs/cmpInt/cmpFra/int()/fra() tabulated by operand role over every ordering of the part lengths, every index and every digit pair. (count) every state function of the number scanner tabulated over 256 bytes: which counter each digit feeds, where the exponent begins, which byte sets the sign; setExp shifts both counters by the exponent; getNatural over the signs of the counters. Does NOT decide String() or appendDigits.",
 		c13grammar, c13pred, c13norm, c13ovf, c13parse, expParseRule("C13.base10"), c13cmp, c13count)
 }
 
